@@ -42,7 +42,7 @@ class C09(Check):
             "l=1024..4096, x=extremes) x (mode n plain, y yield between bytes, d dwell inside the buffer) x seed: a small grid with the "
             "observed order attached (judged by the extracted valid_orderb), high-contention cases, uneven cases (idle threads), "
             "`same` cases (all threads on ONE logger type and severity, one-expression statements with nine streamed items, up to "
-            "20000 records per thread), corpus; a batch of each kind also on a ThreadSanitizer build (larger in the thorough tier). "
+            "8000 (quick) / 20000 (thorough) records per thread), corpus; a batch of each kind also on a ThreadSanitizer build (larger in the thorough tier). "
             "In every case each record's content (thread, seq, length, checksum, payload) is compared with the expected bytes. A case is non-trivial when at least two threads log "
             "at least one record each; distinct = distinct case line")
     modelled_note = ("modelled, not verified: std::mutex/lock_guard semantics (mutual exclusion, scope-exit unlock), one xsputn call per "
@@ -100,7 +100,7 @@ class C09(Check):
         #      per-statement record/stringstream must be private); the content of every record is checked
         for rep in range(1 if quick else 4):
             for sink in sinks:
-                for n, per in ((2, 20000), (4, 10000), (6, 8000), (8, 5000)):
+                for n, per in (((2, 8000), (4, 4000), (6, 3000), (8, 2000)) if quick else ((2, 20000), (4, 10000), (6, 8000), (8, 5000))):
                     for dist in "zsm":
                         per2 = per // 4 if dist == "m" else per
                         counts = [rng.randint(per2 // 2, per2) for _ in range(n)]
